@@ -38,7 +38,7 @@ func runC04(c *Ctx) {
 	c.rule("params-read-only", "the verification / callback fields of Params are never assigned inside the library", 1)
 	c.rule("blocking-report-forwarded", "every WatchArgs wrapper in the repository forwards BlockingReportNewValue to the wrapped BlockingReportNewValue and returns its result (a wrapper that forwards to the non-blocking report returns before installation and swallows the rejection)", 1)
 	c.rule("blocking-returns-error", "BlockingReportNewValue returns nil only after receiving nil from the reply channel and otherwise returns an error wrapping what it received", 2)
-	c.rule("skip-flag", "the flag that lets a re-stack skip Verify is initialised from DelayInitialVerification alone and otherwise only assigned the negated result of the enable helper (so SkipInitialVerification or any other state can never switch off verification of later updates)", 2)
+	c.rule("skip-flag", "the flag that lets a re-stack skip Verify is initialised from DelayInitialVerification alone and otherwise only assigned the negated result of the enable helper, which is called only while the flag is still set (so SkipInitialVerification, a repeated enable request or any other state can never switch off verification of later updates)", 3)
 	c.rule("cbloop-drains", "the callback goroutine returns only after finding the callback queue empty, so a queued error event for a rejected update is delivered unless the queue overflowed", 1)
 	c.rule("callbacks-see-published", "arguments of every handler call derive only from fields of the event being processed (or the callback goroutine's record of the last announced version)", 4)
 
@@ -107,6 +107,7 @@ func runC04(c *Ctx) {
 	c04Blocking(c, k)
 
 	k.checkSkipFlag("skip-flag")
+	k.checkEnableHelperOnlyWhileSkipping("skip-flag")
 	k.checkParamsReadOnly("params-read-only")
 	k.checkEventsRefreshedOnEnable("events-refreshed-on-enable")
 	k.checkBlockingForwarders("blocking-report-forwarded")
